@@ -10,6 +10,15 @@ def vm_consts(**kw):
     return c
 
 
+def vg_consts(**kw):
+    c = {'MThreads': '<-Threads', 'AbsStep': '<-SMStep', 'NT': 2, 'NKeys': 3, 'CAP': 2, 'NBlocks': 2, 'Progs': '<-ProgGrowErase', 'LockAll': True, 'ReacquireBlock': True,
+         'NodeStorage': False}
+    c.update(kw)
+    return c
+
+
+VG_ACT = ['StartWrite', 'w_acq', 'w_ldst', 'w_lock', 'w_mod', 'gr_unlock', 'gr_ldd', 'gr_lock', 'gr_copy', 'gr_pub', 'gr_rel', 'StartRead', 'r_acq', 'r_st', 'r_rd', 'r_chk', 'Destroy']
+INV_VG = ['Linearizable', 'MemorySafe', 'ContentOk']
 ACT = ['StartEmplace', 'StartErase', 'w_run', 'StartGet', 'r_st', 'r_k', 'r_v', 'r_st2', 'r_h', 'r_ek', 'r_ev', 'r_st3', 'r_en', 'r_st4', 'r_end']
 INV = ['Linearizable']
 
@@ -21,6 +30,16 @@ def run_models(ctx, pid):
             lambda: tlc_mc(ctx, 'vm_1w1r', 'VyukovMap', vm_consts(), invariants=INV, view='mcview', workers=8, must_cover=ACT),
             lambda: tlc_mc(ctx, 'vm_toggle_nomarker', 'VyukovMap', vm_consts(MarkerCheck=False), invariants=INV, view='mcview', workers=4, expect='violation'),
             lambda: tlc_mc(ctx, 'vm_toggle_nofinalcheck', 'VyukovMap', vm_consts(FinalCheck=False), invariants=INV, view='mcview', workers=4, expect='violation'),
+        ]
+        # the map across resizing: writers and lock-free readers against grow (lock every bucket, rehash, publish, retire the old block)
+        jobs += [
+            lambda: tlc_mc(ctx, 'vg_grow_erase', 'VyukovGrow', vg_consts(), invariants=INV_VG, workers=3, must_cover=VG_ACT),
+            lambda: tlc_mc(ctx, 'vg_two_growers', 'VyukovGrow', vg_consts(Progs='<-ProgTwoGrowers', NKeys=4, NBlocks=3), invariants=INV_VG, workers=3, must_cover=['gr_wait']),
+            lambda: tlc_mc(ctx, 'vg_3t', 'VyukovGrow', vg_consts(NT=3, Progs='<-Prog3'), invariants=INV_VG, workers=4),
+            lambda: tlc_mc(ctx, 'vg_toggle_grow_without_locking', 'VyukovGrow', vg_consts(LockAll=False), invariants=INV_VG, workers=3, expect='violation'),
+            # known finding C10-stale-block-read is a behaviour of the spec once values live in heap nodes: the reader validates against the cells
+            # of a replaced block and dereferences a node erased through the new block
+            lambda: tlc_mc(ctx, 'vg_finding_stale_block_read', 'VyukovGrow', vg_consts(NodeStorage=True), invariants=INV_VG, workers=3, expect='violation'),
         ]
         if not q:
             jobs += [lambda: tlc_mc(ctx, 'vm_1w2r', 'VyukovMap', vm_consts(NReaders=2), invariants=INV, view='mcview', workers=12, tmo=3000, heap='24g'),
